@@ -27,6 +27,7 @@ import multiprocessing as mp
 
 from . import remote_pickle
 from .utils import get_hostname, foreign_raise, is_windows, get_logger, classproperty, SupportClassPropertiesMeta, Pipe, gettid, setproctitle, setthreadtitle
+from .process import _resume_stopped
 
 logger = get_logger(__name__)
 
@@ -297,6 +298,7 @@ class RemoteWorker(Worker, metaclass=RemoteWorkerMeta):
             if self._child.is_alive():
                 if force:
                     self._child.terminate()
+                    _resume_stopped(self._child.pid)
                     self._child.join(timeout)
                     try:
                         send_msg(self._socket, (False, None), comment='data: force terminate result')
